@@ -892,6 +892,7 @@ func (p *Pipeline) maintenance() {
 func (p *Pipeline) antispammerMaintenance() {
 	for {
 		time.Sleep(p.settings.Antispam.MaintenanceInterval)
+		verifAntispamTick(p)
 		if p.shouldStop.Load() {
 			return
 		}
